@@ -3,6 +3,12 @@
 import json, subprocess, sys
 CHECKS = {
  # id: (category, technique, text, note, design_ref)
+ "C09": ("fault_enumeration", "exhaustive crash-point x torn-sector enumeration of the real Table.Write log, each crash image read back with the real gpt.Read/partition.Read",
+         "For every ordered pair of table shapes the real Write runs on a logging device; every prefix of the WriteAt/Sync log and every subset of the differing 512-byte sectors of unsynced writes (all 2^n for n<=12, generating family above) is materialised and must read as exactly old or exactly new; completed writes must read as new from the primary.",
+         "memdev write/sync log is the crash model (writes before the last Sync durable; unsynced sectors persist independently, 512-byte granularity)", "DESIGN.md §2.5, §3 C09"),
+ "C15": ("fault_enumeration", "exhaustive single-site (and field-pair) corruption enumeration over the bytes the reader consumes, run in RLIMIT_AS worker processes",
+         "Every byte the clean and the backup-fallback readers consume x byte/word patterns, raw and with CRCs recomputed independently, all pairs of size-determining header fields x boundary values, all truncation points; oracles: no panic, no process death under a 2 GiB address-space limit, allocation bound, read budget, and returned tables must equal what an independent parser decodes from a CRC-valid copy.",
+         "worker processes attribute a death to the in-flight case and require it to reproduce twice; gptck + stdlib crc32 as independent decoder", "DESIGN.md §2.6, §3 C15"),
  "C02": ("exploration", "bounded-exhaustive enumeration of table inputs executed on the real Write/Read + independent on-disk parser",
          "Every table of a spelled-out finite cross product (entries, indices, spellings, geometries, names, attributes, types, disk sizes, sector sizes, PMBR, prior content) is written by the real code and compared via gpt.Read/mbr.Read, partition.Read, Disk.GetPartition and an independent UEFI-spec parser; exhaustive over that domain, says nothing outside it.",
          "memdev in-memory device; gptck (independent parser written from the UEFI spec) defines on-disk validity", "DESIGN.md §3 C02"),
